@@ -229,6 +229,30 @@ func init() {
 		}
 		panic(fmt.Sprintf("PtrOf: %T", args[0]))
 	}
+	ext[symPkg+".RawAddr"] = func(fr *frame, args []value) value {
+		switch p := args[0].(type) {
+		case rawAddr:
+			return p.a
+		case *value:
+			if p == nil {
+				return uintptr(0)
+			}
+			return ptrTok{p: p}
+		}
+		panic(fmt.Sprintf("RawAddr: %T", args[0]))
+	}
+	ext[symPkg+".PtrToken"] = func(fr *frame, args []value) value {
+		switch p := args[0].(type) {
+		case *value:
+			if p == nil {
+				return uintptr(0)
+			}
+			return ptrTok{p: p}
+		case rawAddr:
+			return p.a
+		}
+		panic(fmt.Sprintf("PtrToken: %T", args[0]))
+	}
 	ext[symPkg+".IsPtr"] = func(fr *frame, args []value) value {
 		_, ok := args[0].(ptrTok)
 		return ok
